@@ -1128,9 +1128,17 @@ where
         XFRState::AXFRFirstSoa(_)
         | XFRState::IXFRFirstSoa(_)
         | XFRState::IXFRFirstDiffSoa(_)
-        | XFRState::IXFRSecondDiffSoa(_) =>
-            // No need to check anything.
-            {}
+        | XFRState::IXFRSecondDiffSoa(_) => {
+            // A subsequent message may leave the question section empty.
+            // If it has one, it has to be ours: a late or duplicated reply
+            // to an earlier request can carry our (reused) ID.
+            if answer.header_counts().qdcount() != 0
+                && !msg.is_answer(answer.for_slice())
+            {
+                xfr_state = XFRState::Error;
+                return (false, xfr_state, false);
+            }
+        }
         XFRState::Done => {
             // We should not be here. Switch to error state.
             xfr_state = XFRState::Error;
